@@ -70,12 +70,12 @@ func DecodeSsixSR(hdr BoxHeader, startPos uint64, sr bits.SliceReader) (Box, err
 		Version: version,
 		Flags:   versionAndFlags & flagsMask,
 	}
-	if hdr.Size < 16 {
+	if hdr.payloadLen() < 8 {
 		return nil, fmt.Errorf("ssix: box is too small")
 	}
 	subSegmentCount := sr.ReadUint32()
-	sizeLeft := hdr.Size - 16
-	if subSegmentCount > uint32(sizeLeft/8) {
+	sizeLeft := uint64(hdr.payloadLen() - 8)
+	if uint64(subSegmentCount) > sizeLeft/4 { // Each subsegment takes at least 4 bytes (range_count)
 		return nil, fmt.Errorf("too many subsegments: %d", subSegmentCount)
 	}
 	b.SubSegments = make([]SubSegment, subSegmentCount)
